@@ -5,7 +5,7 @@ use super::util::*;
 use super::{entry_jobs, stack_jobs, Plan, PropDef};
 use crate::check::Lvl;
 use crate::driver::{Ctx, Job, Tier};
-use crate::entry::{Entry, Idx, IdxC};
+use crate::entry::{Entry, Idx, IdxC, Stack};
 use crate::live::Live;
 use crate::panics;
 use crate::val::{Dom, Kind, Same, Val};
@@ -21,7 +21,7 @@ pub const DEF: PropDef = PropDef {
 fn jobs(plan: &Plan) -> Vec<Job> {
     let t = plan.tier;
     let mut v = entry_jobs(plan, "C09", "clone", t.pick(40, 600, 1), |d| d.flags.clone);
-    v.extend(stack_jobs(plan, "C09", "stack-clone", t.pick(10, 120, 0), |d| d.flags.clone));
+    v.extend(stack_jobs(plan, "C09", "stack-clone", t.pick(18, 180, 0), |d| d.flags.clone));
     v.extend(entry_jobs(plan, "C09", "chain", t.pick(32, 300, 1), |d| super::chain::eligible(d, super::chain::Fin::Copy)));
     v.extend(stack_jobs(plan, "C09", "stack-chain", t.pick(6, 50, 0), |d| super::chain::eligible_stack(d, super::chain::Fin::Copy)));
     v
@@ -37,6 +37,8 @@ fn required(plan: &Plan) -> Vec<String> {
         v.push(format!("stack-clone:{}", d.label));
     }
     v.push("clone_from:dst-merged".into());
+    v.push("stack-clone:merged-source".into());
+    v.push("stack-clone:merged-source-left-empty".into());
     v.push("clone_from:dst-more-columns".into());
     v.push("clone_from:dst-fewer-columns".into());
     for d in plan.reg {
@@ -234,11 +236,37 @@ pub fn run_stack<E: Entry, S: IdxC<Idx<E>>>(ctx: &mut Ctx) {
         return super::chain::run_stack::<E, S>(ctx, super::chain::Fin::Copy, "stack-clone-chain");
     }
     let kind = kind_for(ctx.hist_no / 3);
-    let n1 = ctx.rng.range(1, 30);
+    // the original is a default stack, a stack sized (and, for coded regions, trained) by
+    // merge_capacity that then receives copies, or such a stack left empty: "empty" does not
+    // mean "default"
+    let mode = (ctx.hist_no / 3 + ctx.hist_no / 9) % 3;
+    let n1 = if mode == 2 { 0 } else { ctx.rng.range(1, 30) };
     let pool: Vec<E::V> = <E::V as Val>::gen_run(&mut ctx.rng, Dom::new(kind), n1 + 4);
     let nforms = E::form_names().len();
-    let mut a = LiveStack::<E, S>::new("a");
-    ctx.log(format!("a = FlatStack<{}, {}>::default()", E::label(), S::KIND));
+    let mut a = if mode == 0 {
+        ctx.log(format!("a = FlatStack<{}, {}>::default()", E::label(), S::KIND));
+        LiveStack::<E, S>::new("a")
+    } else {
+        let mut src = LiveStack::<E, S>::new("src");
+        for v in &pool {
+            if !src.copy(ctx, v, 0) {
+                ctx.end_history();
+                return;
+            }
+        }
+        match panics::catch(|| Stack::<E, S>::merge_capacity(std::iter::once(&src.fs))) {
+            Ok(fs) => {
+                ctx.log("a = FlatStack::merge_capacity([src])".into());
+                ctx.cover(if mode == 2 { "stack-clone:merged-source-left-empty" } else { "stack-clone:merged-source" });
+                LiveStack::from_stack("a", fs)
+            }
+            Err(p) => {
+                ctx.fail_panic("merge_capacity", &p);
+                ctx.end_history();
+                return;
+            }
+        }
+    };
     for k in 0..n1 {
         if !{ let f__ = ctx.rng.below(nforms); a.copy(ctx, &pool[k % pool.len()], f__) } {
             ctx.end_history();
@@ -302,6 +330,37 @@ pub fn run_stack<E: Entry, S: IdxC<Idx<E>>>(ctx: &mut Ctx) {
         if ok && (a.fs.len() != a.model.len() || b.fs.len() != b.model.len() || c.fs.len() != c.model.len()) {
             ctx.fail("stack-clone-len", "len disagrees with the copied values after divergence".into());
             ok = false;
+        }
+    }
+    // both copies answer the same further copies identically - also when the answer is a
+    // refusal (values foreign to a trained coded region)
+    if ok {
+        let foreign: Vec<E::V> = <E::V as Val>::gen_run(&mut ctx.rng, Dom::new(crate::val::Kind::Hostile), 3);
+        for v in &foreign {
+            let rb = {
+                let (fs, aux) = (&mut b.fs, &mut b.aux);
+                panics::catch(|| E::fs_copy(fs, v, 0, aux)).is_ok()
+            };
+            let rc = {
+                let (fs, aux) = (&mut c.fs, &mut c.aux);
+                panics::catch(|| E::fs_copy(fs, v, 0, aux)).is_ok()
+            };
+            ctx.log(format!("b.copy({0}) {1}; c.copy({0}) {2}", v.render(), if rb { "accepted" } else { "refused" }, if rc { "accepted" } else { "refused" }));
+            if rb != rc {
+                ctx.fail(
+                    "stack-clone_from-vs-clone",
+                    format!("copying {} was {} by the clone but {} by the clone_from copy", v.render(), if rb { "accepted" } else { "refused" }, if rc { "accepted" } else { "refused" }),
+                );
+                break;
+            }
+            if !rb {
+                break;
+            }
+            b.model.push(v.clone());
+            c.model.push(v.clone());
+            if !b.check_all_get(ctx, Lvl::BASIC, "stack-independence") || !c.check_all_get(ctx, Lvl::BASIC, "stack-independence") {
+                break;
+            }
         }
     }
     ctx.cover(&format!("stack-clone:{}", E::label()));
